@@ -27,10 +27,14 @@ func TestToolsTextCut(t *testing.T) {
 			`" [x="y"`: {`"\" [x=\"y\""`, `#quot; [x=#quot;y#quot;`},
 		} {
 			cs := f.observe("test", pos, name, o)
-			if (pos == "node" && len(cs) != 1) || (pos == "target" && len(cs) != 2) {
+			if (pos == "node" && len(cs) != 2) || (pos == "target" && len(cs) != 3) {
 				t.Fatalf("%s %q: %d cases: %+v", pos, name, len(cs), cs[0])
 			}
-			for _, c := range cs {
+			last := cs[len(cs)-1]
+			if l, _ := hex.DecodeString(last.LabelHex); last.What != "label" || len(l) < len(name) {
+				t.Errorf("%s %q: label case %+v", pos, name, last)
+			}
+			for _, c := range cs[:len(cs)-1] {
 				d, _ := hex.DecodeString(c.DotHex)
 				m, _ := hex.DecodeString(c.MerHex)
 				if c.Problem != "" || string(d) != want[0] || string(m) != want[1] {
